@@ -454,6 +454,13 @@ func bitsCase(c *core.Ctx, r *rand.Rand) {
 	}
 }
 
+func minInt(a, b int) int {
+	if a < b {
+		return a
+	}
+	return b
+}
+
 func rerr(err error) string {
 	if err == nil {
 		return "nil"
@@ -496,6 +503,15 @@ func xorCase(c *core.Ctx, r *rand.Rand) {
 			c.Op("xd new 0 "+hx(data), "ok")
 		} else {
 			c.Branch("xor-decoder-reused")
+			if r.Intn(2) == 0 {
+				// fault-then-reuse: run the decoder into its sticky error on a truncated stream first
+				c.Branch("xor-decoder-fault-before-reuse")
+				cut := cp(data[:r.Intn(minInt(len(data), 9))])
+				guard(c, "xd reset 0 "+hx(cut), func() string { dbuf.SetBuf(cut); drd.Reset(); dec.Reset(); return "ok" })
+				for k := 0; k < 3; k++ {
+					guard(c, "xd next 0", func() string { ok := dec.Next(); return fmt.Sprintf("%v %d", ok, dec.Value()) })
+				}
+			}
 			guard(c, "xd reset 0 "+hx(data), func() string { dbuf.SetBuf(data); drd.Reset(); dec.Reset(); return "ok" })
 		}
 		for i := 0; i < n+2; i++ {
@@ -679,6 +695,43 @@ func readSlots(c *core.Ctx, r *rand.Rand, dec *encoding.TSDDecoder, b *tsdBlock)
 	return got
 }
 
+// poisonBytes: a dense 2-slot block [0,1] cut inside its first value. Reading it drives the bit
+// reader (index out of range), the XOR decoder (sticky err) and the TSD decoder (err) into their
+// error states.
+func poisonBytes(r *rand.Rand) []byte {
+	e := encoding.NewTSDEncoder(0)
+	e.AppendTime(bit.One)
+	e.AppendValue(r.Uint64() | 1)
+	e.AppendTime(bit.One)
+	e.AppendValue(r.Uint64())
+	d, _ := e.Bytes()
+	return cp(d)[:4+1+r.Intn(8)]
+}
+
+// poisonDecoder: fault-then-reuse histories. The decoder (handle 0) reads a truncated block until
+// every layer has failed; the caller then re-arms it (directly or through the pool) on a valid block.
+func poisonDecoder(c *core.Ctx, r *rand.Rand, dec *encoding.TSDDecoder) {
+	c.Branch("tsd-decoder-fault-before-reuse")
+	data := poisonBytes(r)
+	guard(c, "td reset 0 "+hx(data), func() string { dec.Reset(data); return "ok" })
+	for s := 0; s <= 1; s++ {
+		guard(c, fmt.Sprintf("td gv 0 %d", s), func() string {
+			f, ok := dec.GetValue(uint16(s))
+			if !ok {
+				return "false"
+			}
+			return fmt.Sprintf("true %d", math.Float64bits(f))
+		})
+	}
+	guard(c, "td val 0", func() string { return fmt.Sprintf("%d", dec.Value()) })
+	guard(c, "td err 0", func() string {
+		if dec.Error() == nil {
+			c.Note("poison block did not fail the decoder")
+		}
+		return fmt.Sprintf("%v", dec.Error() != nil)
+	})
+}
+
 func tsdCase(c *core.Ctx, r *rand.Rand) {
 	var enc *encoding.TSDEncoder
 	var dec *encoding.TSDDecoder
@@ -690,10 +743,29 @@ func tsdCase(c *core.Ctx, r *rand.Rand) {
 			encoding.ReleaseTSDDecoder(dec)
 		}
 	}()
+	// warm-up, so that what the pools hold at the start of the case does not depend on earlier
+	// cases: one encoder that was used for 3 slots and one decoder that failed on a truncated block
+	// are released; the first Get of the case will (normally) return exactly these objects.
+	{
+		var we *encoding.TSDEncoder
+		guard(c, "te get 0 7", func() string { we = encoding.GetTSDEncoder(7); return "ok" })
+		for k := 0; k < 3; k++ {
+			guard(c, "te time 0 1", func() string { we.AppendTime(bit.One); return "ok" })
+			v := r.Uint64()
+			guard(c, fmt.Sprintf("te val 0 %d", v), func() string { we.AppendValue(v); return "ok" })
+		}
+		encoding.ReleaseTSDEncoder(we)
+		c.Op("te rel 0", "ok")
+		var wd *encoding.TSDDecoder
+		guard(c, "td get 0", func() string { wd = encoding.GetTSDDecoder(); return "ok" })
+		poisonDecoder(c, r, wd)
+		encoding.ReleaseTSDDecoder(wd)
+		c.Op("td rel 0", "ok")
+	}
 	rounds := 2 + r.Intn(4)
 	for round := 0; round < rounds; round++ {
 		n := genLen(r, c.Tier)
-		if r.Intn(25) == 0 {
+		if r.Intn(25) == 0 && round != 0 {
 			n = 0
 		}
 		b := &tsdBlock{start: genStart(r, n), mask: genMask(r, n), vals: make([]uint64, n), noTime: r.Intn(4) == 0 && n > 0}
@@ -703,13 +775,17 @@ func tsdCase(c *core.Ctx, r *rand.Rand) {
 			prev = b.vals[i]
 		}
 		// obtain the encoder: fresh, from the pool, or the previous object re-armed
-		switch k := r.Intn(4); {
+		k := r.Intn(4)
+		if round == 1 {
+			k = 1 // every case: an encoder that wrote >= 1 slot is released and taken again
+		}
+		switch {
 		case enc == nil || k == 0:
 			if enc != nil {
 				encoding.ReleaseTSDEncoder(enc)
 				c.Op("te rel 0", "ok")
 			}
-			if r.Intn(2) == 0 {
+			if r.Intn(3) == 0 {
 				c.Branch("tsd-encoder-new")
 				guard(c, fmt.Sprintf("te new 0 %d", b.start), func() string { enc = encoding.NewTSDEncoder(uint16(b.start)); return "ok" })
 			} else {
@@ -766,12 +842,18 @@ func tsdCase(c *core.Ctx, r *rand.Rand) {
 				}
 			case k == 1:
 				c.Branch("tsd-decoder-released-and-reacquired")
+				if r.Intn(2) == 0 {
+					poisonDecoder(c, r, dec)
+				}
 				encoding.ReleaseTSDDecoder(dec)
 				c.Op("td rel 0", "ok")
 				guard(c, "td get 0", func() string { dec = encoding.GetTSDDecoder(); return "ok" })
 				resetDecoder(c, dec, b)
 			default:
 				c.Branch("tsd-decoder-reset")
+				if r.Intn(3) == 0 {
+					poisonDecoder(c, r, dec)
+				}
 				resetDecoder(c, dec, b)
 			}
 			if pass == 0 {
@@ -953,6 +1035,20 @@ func deltaCase(c *core.Ctx, r *rand.Rand) {
 			guard(c, "dd new 0 "+hx(data), func() string { dec = encoding.NewDeltaBitPackingDecoder(data); return "ok" })
 		} else {
 			c.Branch("delta-decoder-reset")
+			if r.Intn(2) == 0 && len(data) > 0 {
+				// fault-then-reuse: a truncated buffer first (header / bit reads fail, errors are ignored by the code)
+				c.Branch("delta-decoder-fault-before-reuse")
+				cut := cp(data[:r.Intn(len(data))])
+				guard(c, "dd reset 0 "+hx(cut), func() string { dec.Reset(cut); return "ok" })
+				for k := 0; k < 3; k++ {
+					has := false
+					guard(c, "dd hasnext 0", func() string { has = dec.HasNext(); return fmt.Sprintf("%v", has) })
+					if !has {
+						break
+					}
+					guard(c, "dd next 0", func() string { return fmt.Sprintf("%d", dec.Next()) })
+				}
+			}
 			guard(c, "dd reset 0 "+hx(data), func() string { dec.Reset(data); return "ok" })
 		}
 		var got []int32
@@ -1110,6 +1206,21 @@ func fixedOffsetCase(c *core.Ctx, r *rand.Rand) {
 			}
 		default:
 			c.Branch("fo-decoder-reused")
+			if r.Intn(2) == 0 {
+				c.Branch("fo-decoder-fault-before-reuse")
+				bad := make([]byte, r.Intn(8))
+				r.Read(bad)
+				if len(bad) > 0 {
+					bad[0] = byte(r.Intn(7))
+				}
+				guard(c, "fd unm 0 "+hx(bad), func() string {
+					l, err := dec.Unmarshal(bad)
+					if err != nil {
+						return foErr(err)
+					}
+					return "ok " + hx(l)
+				})
+			}
 		}
 		var left []byte
 		var uerr error
@@ -1264,11 +1375,16 @@ func externalCase(c *core.Ctx, r *rand.Rand) {
 		}()
 		c.Note(fmt.Sprintf("bitmap cardinality=%d", bm.GetCardinality()))
 	}
-	// snappy chunk writer / reader, both reused across chunks
+	// snappy chunk writer / reader, both reused across chunks. Every chunk is decoded right away
+	// AND again after all later chunks were written and decoded (what Bytes() returned for chunk 1
+	// must still be chunk 1 after chunk 2 went through the same writer).
 	w := compress.NewSnappyWriter()
 	rd := compress.NewSnappyReader()
 	var prevOut, prevCopy []byte // observation only: Uncompress returns its internal buffer
-	for k := 0; k < 1+r.Intn(4); k++ {
+	type chunk struct{ comp, plain []byte }
+	var chunks []chunk
+	nChunks := 2 + r.Intn(3)
+	for k := 0; k < nChunks; k++ {
 		c.Branch("snappy-roundtrip")
 		var plain []byte
 		func() {
@@ -1277,9 +1393,9 @@ func externalCase(c *core.Ctx, r *rand.Rand) {
 					c.Fail("panic", fmt.Sprintf("snappy codec panicked: %v", e))
 				}
 			}()
-			rows := r.Intn(6)
+			rows := 1 + r.Intn(5)
 			for j := 0; j < rows; j++ {
-				row := make([]byte, r.Intn(3000))
+				row := make([]byte, 1+r.Intn(3000))
 				if r.Intn(2) == 0 {
 					r.Read(row)
 				} else {
@@ -1296,6 +1412,7 @@ func externalCase(c *core.Ctx, r *rand.Rand) {
 				c.Fail("snappy-roundtrip", "close error: "+err.Error())
 			}
 			comp := w.Bytes()
+			chunks = append(chunks, chunk{comp: comp, plain: plain}) // comp is kept as returned, NOT copied
 			out, err := rd.Uncompress(comp)
 			if err != nil {
 				c.Fail("snappy-roundtrip", "uncompress error: "+err.Error())
@@ -1312,6 +1429,20 @@ func externalCase(c *core.Ctx, r *rand.Rand) {
 			prevOut, prevCopy = out, cp(out)
 		}()
 		c.Note(fmt.Sprintf("snappy plain=%d", len(plain)))
+	}
+	for k, ch := range chunks {
+		c.Branch("snappy-chunk-decoded-after-later-chunks")
+		func() {
+			defer func() {
+				if e := recover(); e != nil {
+					c.Fail("panic", fmt.Sprintf("snappy codec panicked: %v", e))
+				}
+			}()
+			out, err := compress.NewSnappyReader().Uncompress(ch.comp)
+			if err != nil || !bytes.Equal(out, ch.plain) {
+				c.Fail("snappy-chunk-changed-by-later-chunk", fmt.Sprintf("chunk %d of %d (same writer): Bytes() result no longer decodes to what was written after later chunks were written (err=%v, %d plain bytes, %d decoded)", k, len(chunks), err, len(ch.plain), len(out)))
+			}
+		}()
 	}
 	// something for the model side as well, so the case is not empty in the diffed streams
 	opUv(c, genEdgeU64(r))
